@@ -338,8 +338,20 @@ def call(f, *a, **k):
                     return _m_struct_iter_unpack(s.format, a[0])
                 if f.__name__ == "pack_into":
                     return _m_struct_pack_into(s.format, *a)
-        elif f is _int.from_bytes:
-            return _m_from_bytes(*a, **k)
+        elif getattr(f, "__objclass__", None) is _int and a and _isinstance(a[0], (SymInt, SymBool)) \
+                and hasattr(SymInt, getattr(f, "__name__", "")):
+            # unbound int method on a proxy: int.to_bytes(x, n, "big"), int.bit_length(x), ...
+            x = a[0].as_int() if _isinstance(a[0], SymBool) else a[0]
+            return getattr(x, f.__name__)(*a[1:], **k)
+        elif s is _int and getattr(f, "__name__", "") == "from_bytes":
+            # (int.from_bytes is a fresh builtin-method object on every attribute access: compare by owner and name)
+            if a and _isinstance(a[0], SymBytes) or any(_symbolic(x) for x in (a[0] if a and _isinstance(a[0], (list, tuple)) else ())):
+                if k.get("signed"):
+                    cells = SymBytes.of(a[0])
+                    v = _m_from_bytes(a[0], *(a[1:2] or (k.get("byteorder", "big"),)))
+                    n = _len(cells)
+                    return v - (((v >> (8 * n - 1)) & 1) << (8 * n)) if n else 0
+                return _m_from_bytes(a[0], *(a[1:2] or (k.get("byteorder", "big"),)))
     return f(*a, **k)
 
 
